@@ -14,7 +14,7 @@ EXTENDS BoolFn, Json, TLC, Sequences
 CONSTANTS N, Seed
 VARIABLE i
 (* three rounds of multiply / square / add modulo the prime 32749 (all intermediates below 2^31) *)
-Mix(a, k) == LET h1 == ((a + 1) * 26544 + k * 40503 + Seed * 977) % 32749
+Mix(a, k) == LET h1 == ((a + 1) * 26544 + (k % 32749) * 40503 + (k \div 32749) * 7717 + Seed * 977) % 32749
                  h2 == (h1 * h1 + a * 7 + k) % 32749
                  h3 == (h2 * 31421 + 6927 + a) % 32749
              IN (h3 \div 16) % 2
